@@ -297,6 +297,10 @@ func (w *W) c15Program(k int) {
 						if r.Chance(1, 3) {
 							it.SetNull()
 						}
+					case simdjson.TagObjectStart, simdjson.TagArrayStart:
+						if n > 1 && r.Chance(1, 6) {
+							it.SetNull() // leaves a run of deleted entries behind
+						}
 					}
 				}
 				return nil
@@ -335,6 +339,26 @@ func (w *W) c15Program(k int) {
 			if ea != nil || eb != nil || cmpRoots(b, a, nil, false) != "" {
 				w.Violation("C15/serializer-reuse/differs-from-fresh", fmt.Sprintf("reused Serializer/destination gives another document than fresh ones: %v %v %s; history=%v", ea, eb, cmpRoots(b, a, nil, false), lastN(trace, 8)), cs)
 				return
+			}
+			// the result in the reused destination must also behave like the fresh one under
+			// whole-tape consumers: Clone, then Serialize, then read
+			if r.Bool() {
+				var again *simdjson.ParsedJson
+				var aerr error
+				perr := walk.Guard(func() error {
+					again, aerr = fs.Deserialize(fs.Serialize(nil, *out.Clone(nil)), nil)
+					return nil
+				})
+				var c []*ref.Value
+				var ec error
+				if perr == nil && aerr == nil {
+					c, ec = walk.Into(again)
+				}
+				if perr != nil || aerr != nil || ec != nil || cmpRoots(b, c, nil, false) != "" {
+					w.Violation("C15/serializer-reuse/second-generation", fmt.Sprintf("serializing the document held by a reused destination fails or differs where the fresh one does not: %v %v %v %s; history=%v", perr, aerr, ec, cmpRoots(b, c, nil, false), lastN(trace, 8)), cs)
+					return
+				}
+				w.Count("second_generation_round_trips", 1)
 			}
 			if r.Bool() {
 				serDst = out
